@@ -7,12 +7,14 @@ model of argument binding / argparse / evaluation is `Iodata/Model/Cli.lean` (th
 runs for the `cli` correspondence stream).  What the API calls then do is C07/C08.
 
 Modelled, not proved: numpy's floating-point traps (`np.seterr(... "raise")`) only turn computations that
-would have produced inf/nan silently into exceptions (⇒ non-zero exit); they never change a value that is
-returned (so exit 0 ⇒ same bytes as the API) — tied by the subprocess search.
+would have produced inf/nan silently into exceptions.  That such an exception always reaches `main`'s caller
+(⇒ non-zero exit; so exit 0 ⇒ no trap fired ⇒ the API's code path and bytes) is `fp_traps_never_swallowed` over
+the handler table regenerated from every module of the package (`Gen/Handlers.lean`).
 -/
 import Iodata.Model.Cli
 import Iodata.Props.C08
 import Iodata.Gen.ApiFlow
+import Iodata.Gen.Handlers
 
 namespace Iodata.Props.C18
 open Iodata.Flow Iodata.Cli Iodata.Gen
@@ -126,5 +128,27 @@ theorem cli_preflight_spares_output (b : Beh) (f : Frame) (path : Nat) (fs : FS)
   rw [C08.flow_matches_dump_one]
   obtain ⟨h1, h2, h3, -⟩ := C08.dump_one_preflight b f path fs e hsel hbad he
   exact ⟨h1, h2, h3⟩
+
+/-! ### floating-point traps: the only thing the CLI adds to the API -/
+
+/-- exception classes through which a handler would intercept a trapped `FloatingPointError` -/
+def fpNames : List String := ["FloatingPointError", "ArithmeticError", "Exception", "BaseException", ""]
+
+def catchesFP (h : Handlers.Handler) : Bool :=
+  (h.kind == "except" || h.kind == "suppress") && h.caught.any (fun c => fpNames.contains c)
+
+/-- **fp_traps_never_swallowed.**  In the whole package (1) every `except` clause / `contextlib.suppress` that can
+intercept a `FloatingPointError` ends in `raise` on every path (the API funnels, which convert it into
+`LoadError` / `DumpError` / …), so a trap that fires under the CLI can never be turned into a normal return with
+other content than the API's; (2) the only statement that sets numpy's error mode is the one in `main`. -/
+theorem fp_traps_never_swallowed :
+    (Handlers.handlers.filter catchesFP).all (fun h => h.reraises) = true ∧
+    (Handlers.handlers.filter (fun h => h.kind == "seterr")).all
+      (fun h => h.module == "iodata.__main__" && h.func == "main") = true := by
+  decide +kernel
+
+/-- non-vacuity: the table does contain FP-intercepting handlers (the API funnels) and the `seterr` of `main`. -/
+example : 5 ≤ (Handlers.handlers.filter catchesFP).length ∧
+    (Handlers.handlers.filter (fun h => h.kind == "seterr")).length = 1 := by decide +kernel
 
 end Iodata.Props.C18
